@@ -2251,6 +2251,8 @@ private:
 
         constexpr size16_t analyze_states()
         {
+            analyze_nterms();
+
             situation_info root_situation_info{ root_rule_idx, 0, eof_idx };
             size32_t root_sit_idx = make_situation_idx(root_situation_info);
             state_count = 1;
@@ -2472,16 +2474,6 @@ private:
 
         constexpr const term_subset& make_nterm_first(size16_t nt)
         {
-            if (nterm_first_analyzed.test(nt))
-                return nterm_first[nt];
-            nterm_first_analyzed.set(nt);
-
-            const utils::slice& s = gi.nterm_rule_slices[nt];
-            for (size_t i = 0u; i < s.n; ++i)
-            {
-                const rule_info& ri = gi.rule_infos[s.start + i];
-                nterm_first[nt].add(make_right_side_slice_first(ri, 0));
-            }
             return nterm_first[nt];
         }
 
@@ -2511,19 +2503,48 @@ private:
 
         constexpr bool make_nterm_empty(size16_t nt)
         {
-            if (nterm_empty_analyzed.test(nt))
-                return nterm_empty.test(nt);
-            nterm_empty_analyzed.set(nt);
+            return nterm_empty.test(nt);
+        }
 
-            const utils::slice& s = gi.nterm_rule_slices[nt];
-            for (size_t i = 0u; i < s.n; ++i)
+        constexpr void analyze_nterms()
+        {
+            bool changed = true;
+            while (changed)
             {
-                if (make_right_side_empty(gi.rule_infos[s.start + i]))
+                changed = false;
+                for (size16_t i = 0u; i < rule_count; ++i)
                 {
-                    return (nterm_empty.set(nt), true);
+                    const rule_info& ri = gi.rule_infos[i];
+                    term_subset first = nterm_first[ri.l_idx];
+                    bool empty = true;
+                    for (size_t j = 0u; j < ri.r_elements; ++j)
+                    {
+                        const symbol& s = gi.right_sides[ri.r_idx][j];
+                        if (s.term)
+                        {
+                            first.set(s.idx);
+                            empty = false;
+                            break;
+                        }
+                        first.add(nterm_first[s.idx]);
+                        if (!nterm_empty.test(s.idx))
+                        {
+                            empty = false;
+                            break;
+                        }
+                    }
+                    if (!(first == nterm_first[ri.l_idx]))
+                    {
+                        nterm_first[ri.l_idx] = first;
+                        changed = true;
+                    }
+                    if (empty && !nterm_empty.test(ri.l_idx))
+                    {
+                        nterm_empty.set(ri.l_idx);
+                        changed = true;
+                    }
                 }
             }
-            return (nterm_empty.reset(nt), false);
         }
 
         const grammar_info& gi;
@@ -2542,8 +2563,6 @@ private:
         right_side_slice_subset right_side_slice_first_analyzed = {};
         nterm_subset nterm_empty = { };
         term_subset nterm_first[nterm_count] = { };
-        nterm_subset nterm_empty_analyzed = { };
-        nterm_subset nterm_first_analyzed = { };
     };
 
     constexpr static size16_t get_parse_table_idx(bool term, size16_t idx)
